@@ -9,6 +9,9 @@ Rules added to the base table (C++ construct -> primitive):
   a - b                    on size_t, as a value         -> usub a b                               (wrap reported)
   std::swap(v[i], v[j])    v the same vector<size_t> member -> vswap "v[]" v i j, written back to the member
   std::uniform_int_distribution<size_t> d{a, b}          -> uniform_dist a b                       (requires a <= b)
+  ++m / --m / m++ / m--    m a size_t member, as a value -> the state update of the statement rule (-- at 0 reported),
+                                                            then the new (pre) resp. the old (post) content of m
+  m_open_list[i] = x       as a statement                -> x, then i, then vset "m_open_list[]" (x_open s) i x, written back
   d(m_mt)                                                -> rng_draw d (x_rnd s): head of the draw list, which must
                                                             lie in [a, b]; the member m_mt becomes the tail
 (reading / assigning an element field of kind nat, e.m_open_list_position, is in the base table.)
@@ -84,8 +87,22 @@ class Ext(cpp2coq.Tr):
             return b0 + b1, c["a"][0]["n"], t0, t1
         return None
 
+    def steps_member(self, c):
+        """does the expression contain ++/-- of a member"""
+        if c["k"] == "un" and c["n"] in ("pre++", "post++", "pre--", "post--") and c["a"][0]["k"] == "field":
+            return True
+        return any(self.steps_member(x) for x in c["a"])
+
     def E_ext(self, c, st, env):
         k = c["k"]
+        if k == "un" and c["n"] in ("pre++", "post++", "pre--", "post--") and c["a"][0]["k"] == "field" \
+                and self.f_by_cpp.get(c["a"][0]["n"], (None, None))[1] == "nat":
+            # ++m / --m / m++ / m-- on a size_t member used as a VALUE: the state update is the one of the statement
+            # rule of the base table (-- at 0 reported); the value is the content after (pre) resp. before (post) it
+            coq, before = self.f_by_cpp[c["a"][0]["n"]][0], st[0]
+            b = self.X(c, st, env)
+            x = self.fresh("n")
+            return b + ["let %s := (%s %s) in" % (x, coq, st[0] if c["n"].startswith("pre") else before)], x, "nat"
         if k == "op" and c["n"] == "operator[]":
             r = self.natvec_elem(c, st, env)
             if r is not None:
@@ -126,6 +143,26 @@ class Ext(cpp2coq.Tr):
         return None
 
     def X_ext(self, c, st, env):
+        if c["k"] == "bin" and c["n"] == "=" and len(c["a"]) == 2:
+            lhs, rhs = c["a"]
+            if lhs["k"] == "op" and lhs["n"] == "operator[]" and lhs["a"][0]["k"] == "field" \
+                    and self.f_by_cpp.get(lhs["a"][0]["n"], (None, None))[1] == "natvec":
+                # v[i] = x on a vector<size_t> member: the right operand first (C++17), then the index, then the
+                # store through the reference, which must be in range
+                b, t, kd = self.E(rhs, st, env)
+                if kd != "nat":
+                    raise Unsupported("assignment of %s to an element of %s" % (kd, lhs["a"][0]["n"]))
+                bl, name, vec, i = self.natvec_elem(lhs, st, env)
+                coq = self.f_by_cpp[name][0]
+                x, ns = self.fresh("v"), self.fresh("s")
+                out = b + bl + ["do %s <- vset \"%s[]\" %s %s %s;" % (x, name, vec, i, t),
+                                "let %s := set_%s %s %s in" % (ns, coq, st[0], x)]
+                st[0] = ns
+                return out
+            if self.steps_member(rhs) and not (lhs["k"] == "member" and lhs["a"][0]["k"] == "ref"):
+                # the base rule evaluates the left operand first, C++17 the right one: only accepted when the left
+                # operand is a field of a named reference, whose evaluation does nothing
+                raise Unsupported("assignment with ++/-- of a member on the right and %s on the left" % cpp2coq.show(lhs)[:120])
         if c["k"] == "call" and c["n"] == "swap" and len(c["a"]) == 2:
             r1 = self.natvec_elem(c["a"][0], st, env)
             r2 = self.natvec_elem(c["a"][1], st, env)
